@@ -13,6 +13,7 @@ mod determinism;
 mod fsplan;
 mod isolate;
 mod lsp;
+mod lsploop;
 mod session;
 mod sysfault;
 mod watch;
@@ -71,7 +72,7 @@ struct RunReport {
 fn scenario_property_for_panic(scenario: &str) -> &'static str {
     match scenario {
         "watch" => "C20",
-        "lsp" => "C21",
+        "lsp" | "lsploop" => "C21",
         "determinism" => "C14",
         "session_faults" | "session_enum" => "C19",
         _ => "C18",
@@ -90,7 +91,7 @@ fn generate_case(scenario: &str, seed: u64) -> Value {
         "fsplan" => serde_json::to_value(fsplan::generate(seed)).unwrap(),
         "watch" => serde_json::to_value(watch::generate(seed)).unwrap(),
         "determinism" => serde_json::to_value(determinism::generate(seed)).unwrap(),
-        "lsp" => serde_json::to_value(lsp::generate(seed)).unwrap(),
+        "lsp" | "lsploop" => serde_json::to_value(lsp::generate(seed)).unwrap(),
         _ => simcore::harness_error(&format!("unknown scenario {scenario}")),
     }
 }
@@ -248,9 +249,9 @@ fn run_case(scenario: &str, case: &Value) -> RunReport {
             let o = determinism::run(&c, tag);
             RunReport { loghash: simcore::fnv1a(&o.log), nontrivial: o.nontrivial, violations: o.violations, counters: o.counters, sub_runs: o.configurations, sim_time_ms: 0 }
         }
-        "lsp" => {
+        "lsp" | "lsploop" => {
             let c: lsp::LspCase = serde_json::from_value(case.clone()).unwrap_or_else(|e| simcore::harness_error(&format!("bad lsp case: {e}")));
-            let o = lsp::run(&c, tag);
+            let o = if scenario == "lsploop" { lsploop::run(&c, tag) } else { lsp::run(&c, tag) };
             RunReport { loghash: simcore::fnv1a(&o.log), nontrivial: o.nontrivial, violations: o.violations, counters: o.counters, sub_runs: 1, sim_time_ms: o.sim_time_ms }
         }
         _ => simcore::harness_error(&format!("unknown scenario {scenario}")),
@@ -430,6 +431,7 @@ fn warm_up(scenario: &str) {
         "fsplan" => &["fsplan"],
         "watch" => &["session_clean", "watch"],
         "lsp" => &["session_clean", "lsp"],
+        "lsploop" => &["session_clean", "lsp", "lsploop"],
         _ => &[],
     };
     for sc in warm_scenarios {
@@ -539,7 +541,7 @@ fn minimise(scenario: &str, case: Value, property: &str, kind: &str) -> (Value, 
     let Some(steps) = case.get("steps").and_then(|s| s.as_array()).cloned() else {
         return (case, 0);
     };
-    let budget = if scenario == "watch" || scenario == "lsp" || scenario == "determinism" { 400 } else { 1200 };
+    let budget = if scenario == "watch" || scenario == "lsp" || scenario == "lsploop" || scenario == "determinism" { 400 } else { 1200 };
     let (min_steps, st) = simcore::shrink::ddmin(steps, budget, |cand| {
         let mut c = case.clone();
         c["steps"] = Value::Array(cand.to_vec());
@@ -598,7 +600,7 @@ fn plan_for(property: &str, tier: &str) -> Plan {
             rule: "one case = initial project + a history of editor operations (create/modify/delete/rename files incl. non-source and binary files, mkdir, recursive rmdir, rename folder, schema and extension edits), flushes of the debouncer and GCs; the kernel->notify mapping is a stub calibrated against inotify, the debouncer is notify-debouncer-full's own data structure fed with simulated time, categorisation and the watch loop are the real code (seams H5/H6). At each quiescent point the loop's artifacts/diagnostics and the artifact directory must equal a fresh batch compile of the tree, and the loop must still be running. Non-trivial: at least two processed batches and a folder-level event or a batch categorised before a later edit. Distinct = distinct case hash." },
         "C14" => Plan { scenarios: vec![("determinism", t(300, 30_000))], level: "exploration",
             rule: "one case = a project state (seeded files from the pool, or a checked-in demo project) compiled in 4-6 configurations that differ in hash seed (getrandom seam), directory enumeration permutation (seam H7) and content-preserving re-layouts (rename files, move between folders) which change discovery and interning order; every configuration runs in a fresh process; artifact maps (and diagnostics, for configurations that share file names) must be identical. Non-trivial: the project compiles to artifacts or to >= 2 diagnostics. Distinct = distinct case hash." },
-        "C21" => Plan { scenarios: vec![("lsp", t(15_000, 300_000))], level: "exploration",
+        "C21" => Plan { scenarios: vec![("lsp", t(15_000, 300_000)), ("lsploop", t(6_000, 150_000))], level: "exploration",
             rule: "one case = project + a history of didOpen/didChange/didClose notifications, on-disk edits delivered as file-system batches, diagnostics computations and requests (semantic tokens, formatting, hover, definition); the select! loop is replaced by the driver choosing one ready arm per step, handlers and state are the real code. At quiescent points and for every request the answers and the effective diagnostics must equal those of a freshly started server on the same disk tree with the same open buffers. Non-trivial: a buffer was opened after diagnostics were first computed, or a buffer differs from disk. Distinct = distinct case hash." },
         _ => simcore::harness_error("unknown property for sim_world"),
     }
@@ -756,8 +758,8 @@ fn run(args: &[String]) -> i32 {
         extra.insert("exhaustive".into(), json!(true));
         extra.insert("exhaustive_scope".into(), json!("every operation index x 9 fault kinds x {same session, restart} of the base histories of scenario session_enum; the session_faults part samples"));
     }
-    extra.insert("components_real".into(), json!(["isograph_compiler::{CompilerState, compile, update_sources, handle_watch_command, categorisation}", "artifact_content::{get_artifact_path_and_content, FileSystemState}", "isograph_schema (validation, database)", "pico (with LRU capacity override)", "std::fs on tmpfs (through the interposed libc entry points)", "isograph_lsp request / notification handlers, LspState, diagnostics publishing"]));
-    extra.insert("components_stubbed".into(), json!(["kernel->notify event mapping (calibrated stub)", "debounce timing: notify-debouncer-full's event queue logic re-implemented over simulated time (see DESIGN.md 5.1)", "language-server select! loop skeleton", "I/O faults are injected at the operation seam H3 and at the libc entry points (LD_PRELOAD), not in the kernel; the file system is tmpfs"]));
+    extra.insert("components_real".into(), json!(["isograph_compiler::{CompilerState, compile, update_sources, handle_watch_command, categorisation}", "artifact_content::{get_artifact_path_and_content, FileSystemState}", "isograph_schema (validation, database)", "pico (with LRU capacity override)", "std::fs on tmpfs (through the interposed libc entry points)", "isograph_lsp request / notification handlers, LspState, diagnostics publishing", "isograph_lsp::server::run (the select! loop and its debounce timer, scenario lsploop, under tokio's paused clock)"]));
+    extra.insert("components_stubbed".into(), json!(["kernel->notify event mapping (calibrated stub)", "debounce timing: notify-debouncer-full's event queue logic re-implemented over simulated time (see DESIGN.md 5.1)", "language-server select! loop skeleton in scenario lsp (scenario lsploop runs the real loop; the stdio transport and the crossbeam->tokio bridge thread stay stubbed)", "I/O faults are injected at the operation seam H3 and at the libc entry points (LD_PRELOAD), not in the kernel; the file system is tmpfs"]));
     let ev = Evidence {
         property_id: property.clone(),
         tier: tier.clone(),
@@ -784,7 +786,7 @@ fn run(args: &[String]) -> i32 {
 fn selftest(args: &[String]) -> i32 {
     let runs = arg_u64(args, "--runs", 300);
     let mut bad = 0;
-    for scenario in ["session_clean", "session_faults", "fsplan", "watch", "lsp", "determinism"] {
+    for scenario in ["session_clean", "session_faults", "fsplan", "watch", "lsp", "lsploop", "determinism"] {
         let runs = if scenario == "determinism" { runs / 10 } else { runs };
         let mut maps = Vec::new();
         for (workers, block) in [(1usize, runs), (16usize, 7)] {
